@@ -6,7 +6,9 @@ Supported fragment: a function whose parameters and locals are integers;
 statements: if (without fall-through of the 'then' part unless it returns),
 return, assignment, compound assignment, local declarations with initialiser;
 expressions: + - * & | ^ << >> ! && || comparisons, integer and character
-literals, casts between integer types, parentheses.  Anything else raises
+literals, casts between integer types, parentheses; for a `const char *` parameter s
+(a NUL-terminated string, modelled as `list Z`) also strlen(s) and s[k] with a literal k
+(reading the terminator or beyond the list yields 0).  Anything else raises
 LeafError (reported by the check as a broken obligation).
 
 Two numeric modes:
@@ -66,6 +68,7 @@ class Tr:
     def __init__(self, mode):
         self.mode = mode
         self.S = "N" if mode == "N" else "Z"
+        self.strings = set()
 
     # ---- types
     def ubits(self, t):
@@ -152,7 +155,29 @@ class Tr:
                     return "(%s <=? %s)" % (b, a)
                 return "(negb (%s =? %s))" % (a, b)
             return self.arith(op, self.expr(inner[0]), self.expr(inner[1]), qt(n))
+        if k == "CallExpr" and self.mode == "Z":
+            callee = self.strip_casts(inner[0])
+            if callee.get("kind") == "DeclRefExpr" and callee.get("referencedDecl", {}).get("name") == "strlen" \
+                    and len(inner) == 2:
+                return "(Z.of_nat (length %s))" % self.string_ref(inner[1])
+            raise LeafError("unsupported call")
+        if k == "ArraySubscriptExpr" and self.mode == "Z":
+            idx = self.strip_casts(inner[1])
+            if idx.get("kind") != "IntegerLiteral" or int(idx["value"]) < 0:
+                raise LeafError("array index is not a non-negative literal")
+            return "(nth %d%%nat %s 0)" % (int(idx["value"]), self.string_ref(inner[0]))
         raise LeafError("unsupported expression kind %s" % k)
+
+    def strip_casts(self, n):
+        while n.get("kind") in ("ImplicitCastExpr", "ParenExpr") and n.get("inner"):
+            n = n["inner"][0]
+        return n
+
+    def string_ref(self, n):
+        n = self.strip_casts(n)
+        if n.get("kind") == "DeclRefExpr" and n.get("referencedDecl", {}).get("name") in self.strings:
+            return n["referencedDecl"]["name"]
+        raise LeafError("expected a string parameter")
 
     def lit_fits(self, lit, dst):
         v = int(lit["value"])
@@ -282,8 +307,12 @@ def translate(fdecl, gname, mode):
     params, body = [], None
     for c in fdecl.get("inner", []):
         if c.get("kind") == "ParmVarDecl":
+            if qt(c).replace(" ", "") == "constchar*" and mode == "Z":
+                tr.strings.add(c["name"])
+                params.append((c["name"], "list Z"))
+                continue
             tr.check_type(qt(c))
-            params.append(c["name"])
+            params.append((c["name"], tr.S))
         elif c.get("kind") == "CompoundStmt":
             body = c
     if body is None:
@@ -293,4 +322,4 @@ def translate(fdecl, gname, mode):
     e = tr.block(list(body.get("inner", [])))
     S = tr.S
     return "Definition %s %s : %s :=\n  %s%%%s.\n" % (
-        gname, " ".join("(%s : %s)" % (p, S) for p in params), S, e, S)
+        gname, " ".join("(%s : %s)" % (p, t) for p, t in params), S, e, S)
